@@ -3,3 +3,5 @@ import Librfn.Props.C16
 import Librfn.Props.C17
 import Librfn.Props.C19
 import Librfn.Props.C20
+import Librfn.Props.C10
+import Librfn.Props.C04
